@@ -22,6 +22,9 @@ type formulaSite struct {
 	pos        token.Pos
 	named, abs string
 	text       string
+	res        string // named form with single-definition locals substituted (an extracted or inlined local is immaterial)
+	ra         string // the type-named form with locals substituted (renamed AND moved)
+	via        string // the unexported helper the site was read in, at one of its call sites
 }
 
 func hasArith(e ast.Expr) bool {
@@ -71,7 +74,7 @@ func hasBoolOp(e ast.Expr) bool {
 
 // boolForm: canonical text of a boolean expression: and(...)/or(...) with sorted operands, not(...), comparisons as
 // oriented polynomials, everything else as (possibly type-named) atoms.
-func boolForm(info *types.Info, e ast.Expr) string {
+func boolForm(info *types.Info, e ast.Expr, defs map[types.Object]localDef) string {
 	e = ast.Unparen(e)
 	switch x := e.(type) {
 	case *ast.BinaryExpr:
@@ -80,7 +83,7 @@ func boolForm(info *types.Info, e ast.Expr) string {
 			parts := flattenBool(x, x.Op)
 			var fs []string
 			for _, p := range parts {
-				fs = append(fs, boolForm(info, p))
+				fs = append(fs, boolForm(info, p, defs))
 			}
 			sort.Strings(fs)
 			name := "and"
@@ -89,10 +92,10 @@ func boolForm(info *types.Info, e ast.Expr) string {
 			}
 			return name + "(" + strings.Join(fs, "; ") + ")"
 		case token.EQL, token.NEQ, token.LSS, token.LEQ, token.GTR, token.GEQ:
-			l, ok1 := exprPoly(info, x.X, nil, nil, 0)
-			r, ok2 := exprPoly(info, x.Y, nil, nil, 0)
+			l, ok1 := exprPoly(info, x.X, defs, nil, 0)
+			r, ok2 := exprPoly(info, x.Y, defs, nil, 0)
 			if ok1 && ok2 {
-				return "[" + orient(polyAdd(l, r, -1), x.Op) + "]"
+				return "[" + canonCmp(polyAdd(l, r, -1), x.Op) + "]"
 			}
 			a, b := strings.ReplaceAll(types.ExprString(x.X), " ", ""), strings.ReplaceAll(types.ExprString(x.Y), " ", "")
 			if polyAbstract {
@@ -105,10 +108,17 @@ func boolForm(info *types.Info, e ast.Expr) string {
 		}
 	case *ast.UnaryExpr:
 		if x.Op == token.NOT {
-			return "not(" + boolForm(info, x.X) + ")"
+			return "not(" + boolForm(info, x.X, defs) + ")"
 		}
 	}
-	if p, ok := exprPoly(info, e, nil, nil, 0); ok {
+	if id, ok := e.(*ast.Ident); ok && defs != nil {
+		if d, ok := defs[info.Uses[id]]; ok && d.pos == 0 && d.n == 1 && d.rhs != nil {
+			if b, ok := info.TypeOf(d.rhs).Underlying().(*types.Basic); ok && b.Kind() == types.Bool {
+				return boolForm(info, d.rhs, defs)
+			}
+		}
+	}
+	if p, ok := exprPoly(info, e, defs, nil, 0); ok {
 		return p.String()
 	}
 	if polyAbstract {
@@ -159,76 +169,251 @@ func stillDeclared(fn string, want, got []string) []string {
 	return out
 }
 
+// formulasIn collects the formula sites written in one function; with subst, as read at one call site (see cmpsIn).
+func formulasIn(pk *packages.Package, fd *ast.FuncDecl, fn string, subst map[types.Object]ast.Expr, callerRecv types.Object, callerDefs map[types.Object]localDef, callerReach *reachInfo) []formulaSite {
+	var out []formulaSite
+	info := pk.TypesInfo
+	polyRecv, polyRecv2, polyArgs = nil, callerRecv, subst
+	if fd.Recv != nil && len(fd.Recv.List) == 1 && len(fd.Recv.List[0].Names) == 1 {
+		polyRecv = info.Defs[fd.Recv.List[0].Names[0]]
+	}
+	polyReach, polyPaths = reachingDefs(info, fd.Body), true
+	if callerReach != nil {
+		// the arguments of the call are read in the caller: its definitions reach them
+		for o, ds := range callerReach.defs {
+			if _, dup := polyReach.defs[o]; !dup {
+				polyReach.defs[o] = ds
+			}
+		}
+		for n, p := range callerReach.parents {
+			polyReach.parents[n] = p
+		}
+		for o := range callerReach.addr {
+			polyReach.addr[o] = true
+		}
+	}
+	defer func() { polyRecv, polyRecv2, polyArgs, polyReach, polyPaths = nil, nil, nil, nil, false }()
+	fdefs := singleDefs(info, fd.Body)
+	for o, d := range callerDefs {
+		if _, dup := fdefs[o]; !dup {
+			fdefs[o] = d
+		}
+	}
+	// accumulate: x = x + v, x += v, x -= v, x++ are all "+= <poly>" (the target leaves the polynomial)
+	accum := func(tok token.Token, lhs ast.Expr, p Poly, defs map[types.Object]localDef, abstract bool) (token.Token, Poly) {
+		switch tok {
+		case token.DEFINE:
+			return token.ASSIGN, p
+		case token.SUB_ASSIGN:
+			return token.ADD_ASSIGN, polyMul(p, polyConst(-1))
+		case token.ASSIGN:
+			if lhs == nil {
+				return tok, p
+			}
+			polyAbstract = abstract
+			lp, ok := exprPoly(info, lhs, nil, nil, 0)
+			polyAbstract = false
+			if !ok || len(lp) != 1 {
+				return tok, p
+			}
+			for atom, c := range lp {
+				if atom == "" || c != 1 || p[atom] != 1 {
+					return tok, p
+				}
+				rest := polyAdd(p, lp, -1)
+				for k := range rest {
+					if k != atom && strings.Contains(k, atom) {
+						return tok, p
+					}
+				}
+				return token.ADD_ASSIGN, rest
+			}
+		}
+		return tok, p
+	}
+	add := func(target string, tok token.Token, lhs, rhs ast.Expr, pos token.Pos) {
+		if tok == token.DEFINE {
+			tok = token.ASSIGN
+		}
+		if hasBoolOp(rhs) {
+			if b, ok := info.TypeOf(rhs).Underlying().(*types.Basic); ok && b.Kind() == types.Bool {
+				named := boolForm(info, rhs, nil)
+				polyAbstract = true
+				polyAbsSeen = nil
+				abs := boolForm(info, rhs, nil)
+				polyAbsSeen = nil
+				ra := boolForm(info, rhs, fdefs)
+				polyAbstract = false
+				res := boolForm(info, rhs, fdefs)
+				t := tok.String() + " "
+				out = append(out, formulaSite{fn, target, tok, pos, t + named, t + abs, types.ExprString(rhs), t + res, t + ra, ""})
+				return
+			}
+		}
+		if rhs != nil && !hasArith(rhs) && !callWithConstArg(info, rhs) {
+			// a bare value is a formula only for accumulators (x += v)
+			if tok == token.ASSIGN {
+				return
+			}
+		}
+		named, ok := exprPoly(info, rhs, nil, nil, 0)
+		if !ok {
+			return
+		}
+		t1, named := accum(tok, lhs, named, nil, false)
+		// the target of an accumulation written x = x + v is not looked through in the resolved forms
+		var stop map[string]bool
+		if id, ok := ast.Unparen(lhsOrNil(lhs)).(*ast.Ident); ok && tok == token.ASSIGN && t1 == token.ADD_ASSIGN {
+			stop = map[string]bool{id.Name: true}
+		}
+		res := named
+		resOK := false
+		if rp, ok := exprPoly(info, rhs, fdefs, stop, 0); ok {
+			res, resOK = rp, true
+		}
+		t2 := t1
+		if resOK {
+			t2, res = accum(tok, lhs, res, fdefs, false)
+		}
+		polyAbstract = true
+		polyAbsSeen = nil
+		abs, ok2 := exprPoly(info, rhs, nil, nil, 0)
+		polyAbstract = false
+		if !ok2 {
+			return
+		}
+		t3, abs := accum(tok, lhs, abs, nil, true)
+		polyAbstract = true
+		polyAbsSeen = nil
+		ra, ok3 := exprPoly(info, rhs, fdefs, stop, 0)
+		polyAbstract = false
+		t4 := t3
+		if !ok3 {
+			ra = abs
+		} else {
+			t4, ra = accum(tok, lhs, ra, fdefs, true)
+		}
+		out = append(out, formulaSite{fn, target, t1, pos, t1.String() + " " + named.String(), t3.String() + " " + abs.String(), types.ExprString(rhs), t2.String() + " " + res.String(), t4.String() + " " + ra.String(), ""})
+	}
+	ast.Inspect(fd.Body, func(n ast.Node) bool {
+		switch x := n.(type) {
+		case *ast.AssignStmt:
+			if len(x.Lhs) != 1 || len(x.Rhs) != 1 {
+				return true
+			}
+			add(strings.ReplaceAll(exprText(info, x.Lhs[0]), " ", ""), x.Tok, x.Lhs[0], x.Rhs[0], x.Pos())
+		case *ast.IncDecStmt:
+			// x++ / x-- on a tabled accumulator is += 1 / -= 1
+			if x.Tok == token.INC {
+				addLit(&out, fn, strings.ReplaceAll(exprText(info, x.X), " ", ""), "1", x.Pos())
+			} else {
+				addLit(&out, fn, strings.ReplaceAll(exprText(info, x.X), " ", ""), "-1", x.Pos())
+			}
+		case *ast.CallExpr:
+			// arithmetic handed straight to a call: buf writes, setters, helpers
+			if isConversion(info, x) {
+				return true
+			}
+			if fobj := callee(info, x); fobj != nil {
+				for i, a := range x.Args {
+					if hasArith(a) {
+						add(fmt.Sprintf("call:%s#%d", fobj.Name(), i), token.ASSIGN, nil, a, x.Pos())
+					}
+				}
+			}
+		case *ast.ReturnStmt:
+			for i, r := range x.Results {
+				if hasArith(r) || hasBoolOp(r) {
+					add(fmt.Sprintf("return#%d", i), token.ASSIGN, nil, r, x.Pos())
+				}
+			}
+		}
+		return true
+	})
+	return out
+}
+
+func lhsOrNil(e ast.Expr) ast.Expr {
+	if e == nil {
+		return &ast.BadExpr{}
+	}
+	return e
+}
+
+func addLit(out *[]formulaSite, fn, target, v string, pos token.Pos) {
+	v = "+= " + v
+	*out = append(*out, formulaSite{fn, target, token.ADD_ASSIGN, pos, v, v, v, v, v, ""})
+}
+
+var formulaHelpers = map[string][]string{}
+
 func collectFormulas(p *Prog) map[string][]formulaSite {
 	out := map[string][]formulaSite{}
 	formulaDecls = map[string]cmpDecl{}
+	formulaHelpers = map[string][]string{}
 	p.funcDecls(func(pk *packages.Package, fd *ast.FuncDecl) {
 		if fd.Body == nil || !strings.Contains(pk.PkgPath, "/eth2/") {
 			return
 		}
-		info := pk.TypesInfo
 		fn := pkgShort(pk.Types) + "." + funcName(fd)
 		formulaDecls[fn] = cmpDecl{pk, fd}
-		add := func(target string, tok token.Token, rhs ast.Expr, pos token.Pos) {
-			if hasBoolOp(rhs) {
-				if b, ok := info.TypeOf(rhs).Underlying().(*types.Basic); ok && b.Kind() == types.Bool {
-					named := boolForm(info, rhs)
-					polyAbstract = true
-					polyAbsSeen = nil
-					abs := boolForm(info, rhs)
-					polyAbstract = false
-					out[fn] = append(out[fn], formulaSite{fn, target, tok, pos, named, abs, types.ExprString(rhs)})
-					return
-				}
-			}
-			if !hasArith(rhs) && !callWithConstArg(info, rhs) {
-				// a bare value is a formula only for accumulators (x += v)
-				if tok == token.ASSIGN || tok == token.DEFINE {
-					return
-				}
-			}
-			named, ok := exprPoly(info, rhs, nil, nil, 0)
-			if !ok {
-				return
-			}
-			polyAbstract = true
-			polyAbsSeen = nil
-			abs, ok2 := exprPoly(info, rhs, nil, nil, 0)
-			polyAbstract = false
-			if !ok2 {
-				return
-			}
-			out[fn] = append(out[fn], formulaSite{fn, target, tok, pos, named.String(), abs.String(), types.ExprString(rhs)})
-		}
-		ast.Inspect(fd.Body, func(n ast.Node) bool {
-			switch x := n.(type) {
-			case *ast.AssignStmt:
-				if len(x.Lhs) != 1 || len(x.Rhs) != 1 {
-					return true
-				}
-				add(strings.ReplaceAll(types.ExprString(x.Lhs[0]), " ", ""), x.Tok, x.Rhs[0], x.Pos())
-			case *ast.ExprStmt:
-				// arithmetic handed straight to a call: buf writes, setters
-				if call, ok := x.X.(*ast.CallExpr); ok {
-					if fobj := callee(info, call); fobj != nil {
-						for i, a := range call.Args {
-							if hasArith(a) {
-								add(fmt.Sprintf("call:%s#%d", fobj.Name(), i), token.ASSIGN, a, x.Pos())
-							}
-						}
-					}
-				}
-			case *ast.ReturnStmt:
-				for i, r := range x.Results {
-					if hasArith(r) || hasBoolOp(r) {
-						add(fmt.Sprintf("return#%d", i), token.ASSIGN, r, x.Pos())
-					}
-				}
-			}
-			return true
-		})
+		out[fn] = formulasIn(pk, fd, fn, nil, nil, nil, nil)
 	})
+	// a function also answers for the unexported helpers of its package that it calls directly, each read once per call
+	// site with its parameters replaced by the arguments (sites marked with the helper's name in `via`)
+	direct, _ := helperClosure(p)
+	own := map[string][]formulaSite{}
+	for fn, ss := range out {
+		own[fn] = ss
+	}
+	for fn, calls := range direct {
+		caller, ok := formulaDecls[fn]
+		if !ok {
+			continue
+		}
+		var callerRecv types.Object
+		if fd := caller.fd; fd.Recv != nil && len(fd.Recv.List) == 1 && len(fd.Recv.List[0].Names) == 1 {
+			callerRecv = caller.pk.TypesInfo.Defs[fd.Recv.List[0].Names[0]]
+		}
+		callerDefs := singleDefs(caller.pk.TypesInfo, caller.fd.Body)
+		callerReach := reachingDefs(caller.pk.TypesInfo, caller.fd.Body)
+		for _, hc := range calls {
+			hd, ok := formulaDecls[hc.h]
+			if !ok {
+				continue
+			}
+			formulaHelpers[fn] = append(formulaHelpers[fn], hc.h)
+			subst := helperSubst(hd, hc.call)
+			for _, s := range formulasIn(hd.pk, hd.fd, hc.h, subst, callerRecv, callerDefs, callerReach) {
+				s.via = hc.h
+				s.fn = fn
+				out[fn] = append(out[fn], s)
+			}
+		}
+		_ = own
+	}
 	return out
+}
+
+// helperSubst: parameter -> argument of one call of an unexported helper (parameters the helper re-assigns, and
+// arguments that are literals of functions or composites, keep the parameter's name).
+func helperSubst(hd cmpDecl, call *ast.CallExpr) map[types.Object]ast.Expr {
+	subst := map[types.Object]ast.Expr{}
+	if sig, ok := hd.pk.TypesInfo.Defs[hd.fd.Name].Type().(*types.Signature); ok && sig.Variadic() {
+		return subst
+	}
+	i := 0
+	for _, f := range hd.fd.Type.Params.List {
+		for _, nm := range f.Names {
+			if i < len(call.Args) {
+				if o := hd.pk.TypesInfo.Defs[nm]; o != nil && substitutable(call.Args[i]) && !assignedIn(hd.pk.TypesInfo, hd.fd.Body, o) {
+					subst[o] = call.Args[i]
+				}
+			}
+			i++
+		}
+	}
+	return subst
 }
 
 func init() {
@@ -244,7 +429,10 @@ func init() {
 				continue
 			}
 			for _, s := range all[fn] {
-				fmt.Printf("%s\t%s\t%s\t%s\t%s\t%s\n", s.fn, s.target, s.tok, s.named, s.abs, s.text)
+				if s.via != "" {
+					continue
+				}
+				fmt.Printf("%s\t%s\t%s\t%s\t%s\t%s\t%s\t%s\n", s.fn, s.target, s.tok, s.named, s.abs, s.text, s.res, s.ra)
 			}
 		}
 		os.Exit(0)
@@ -256,6 +444,8 @@ type formulaSpec struct {
 	fn, target string
 	named      []string // "<tok> <polynomial>" with operand names
 	abs        []string // the same with locals/parameters named by type
+	res        []string // the named form with single-definition locals substituted
+	ra         []string // the type-named form with locals substituted
 	spec       string
 }
 
@@ -286,56 +476,190 @@ func sameMultiset(a, b []string) bool {
 
 func ruleFormulaSpec(c *Ctx) {
 	all := collectFormulas(c.P)
-	for _, e := range formulaTable {
-		key := e.fn + ":" + e.target
-		sites := all[e.fn]
-		if _, ok := all[e.fn]; !ok {
-			c.unm(key, token.NoPos, "function %s not found (or has no arithmetic)", e.fn)
+	type verdict struct {
+		status string // ok | bad | missing
+		how    string // named | res | abs | ra | moved
+		pos    token.Pos
+		msg    string
+	}
+	verdicts := make([]verdict, len(formulaTable))
+	// forms of one target among a list of sites
+	type forms struct {
+		named, abs, res, ra, texts []string
+		pos                        token.Pos
+		via                        bool
+	}
+	gather := func(sites []formulaSite, keep func(formulaSite) bool) map[string]*forms {
+		m := map[string]*forms{}
+		for _, s := range sites {
+			if !keep(s) {
+				continue
+			}
+			f := m[s.target]
+			if f == nil {
+				f = &forms{pos: s.pos}
+				m[s.target] = f
+			}
+			f.named = append(f.named, s.named)
+			f.abs = append(f.abs, s.abs)
+			f.res = append(f.res, s.res)
+			f.ra = append(f.ra, s.ra)
+			f.texts = append(f.texts, s.text)
+			if s.via != "" {
+				f.via = true
+			}
+		}
+		return m
+	}
+	// same: multiset equality; for sites read through a helper (once per call site) equality of the sets
+	same := func(got, want []string, via bool) bool {
+		if len(want) == 0 {
+			return false
+		}
+		if sameMultiset(got, want) {
+			return true
+		}
+		if !via {
+			return false
+		}
+		a, b := map[string]bool{}, map[string]bool{}
+		for _, x := range got {
+			a[x] = true
+		}
+		for _, x := range want {
+			b[x] = true
+		}
+		if len(a) != len(b) {
+			return false
+		}
+		for x := range a {
+			if !b[x] {
+				return false
+			}
+		}
+		return true
+	}
+	match := func(e formulaSpec, f *forms) (string, []string) {
+		switch {
+		case same(f.named, e.named, f.via):
+			return "named", nil
+		case same(f.res, e.res, f.via):
+			return "res", nil
+		case same(f.abs, e.abs, f.via):
+			if sw := stillDeclared(e.fn, e.named, append(append([]string{}, f.named...), f.res...)); len(sw) > 0 {
+				return "", sw
+			}
+			return "abs", nil
+		case same(f.ra, e.ra, f.via):
+			if sw := stillDeclared(e.fn, e.named, append(append([]string{}, f.named...), f.res...)); len(sw) > 0 {
+				return "", sw
+			}
+			return "ra", nil
+		}
+		return "", nil
+	}
+	for i, e := range formulaTable {
+		sites, ok := all[e.fn]
+		if !ok {
+			verdicts[i] = verdict{status: "missing", msg: fmt.Sprintf("function %s not found (or has no arithmetic)", e.fn)}
 			continue
 		}
-		var named, abs []string
-		var pos token.Pos
-		var texts []string
-		for _, s := range sites {
-			if s.target == e.target {
-				named = append(named, s.tok.String()+" "+s.named)
-				abs = append(abs, s.tok.String()+" "+s.abs)
-				texts = append(texts, s.text)
-				if pos == token.NoPos {
-					pos = s.pos
+		var pos0 token.Pos
+		if len(sites) > 0 {
+			pos0 = sites[0].pos
+		}
+		own := gather(sites, func(s formulaSite) bool { return s.via == "" })
+		viaAll := gather(sites, func(s formulaSite) bool { return s.via != "" })
+		note := map[string]string{"named": "", "res": " (a sub-expression was moved into or out of a local)", "abs": " (operands renamed)", "ra": " (operands renamed, a sub-expression moved into or out of a local)"}
+		if f := own[e.target]; f != nil {
+			how, sw := match(e, f)
+			switch {
+			case how != "":
+				verdicts[i] = verdict{"ok", how, f.pos, e.spec + note[how]}
+				continue
+			case sw != nil:
+				verdicts[i] = verdict{"bad", "", f.pos, fmt.Sprintf("%s computes %s as {%s}: the shape is the reviewed one but it no longer uses %v, which still exist(s) in the function — another value of the same type was put in its place (reviewed: {%s}; spec: %s)", e.fn, e.target, strings.Join(f.texts, " ; "), sw, strings.Join(e.named, " ; "), e.spec)}
+				continue
+			}
+			// the target is there with another formula: unless the reviewed one now lives in a helper under the same
+			// name, that is a violation
+			if hf := viaAll[e.target]; hf != nil {
+				if how, _ := match(e, hf); how != "" {
+					verdicts[i] = verdict{"ok", how, hf.pos, e.spec + " (computed in a helper)" + note[how]}
+					continue
+				}
+			}
+			// or under another name in the function or a helper of it (the local was re-purposed)
+			verdicts[i] = verdict{"bad", "", f.pos, fmt.Sprintf("%s computes %s as {%s}; in canonical form that is {%s}, the reviewed formula is {%s} — spec: %s", e.fn, e.target, strings.Join(f.texts, " ; "), strings.Join(f.named, " ; "), strings.Join(e.named, " ; "), e.spec)}
+			continue
+		}
+		// no assignment to the target in the function itself: the same formula(s) under the same or another name, in
+		// the function or in an unexported helper it calls
+		found := false
+		for _, m := range []map[string]*forms{viaAll, own} {
+			if f := m[e.target]; f != nil && !found {
+				if how, _ := match(e, f); how != "" {
+					verdicts[i] = verdict{"ok", how, f.pos, e.spec + " (computed in a helper)" + note[how]}
+					found = true
 				}
 			}
 		}
-		if len(named) == 0 {
-			// renamed target? look for the same type-named formulas under another single target
-			byTarget := map[string][]string{}
-			for _, s := range sites {
-				byTarget[s.target] = append(byTarget[s.target], s.tok.String()+" "+s.abs)
-			}
-			found := false
-			for _, t := range sortedKeys(byTarget) {
-				if sameMultiset(byTarget[t], e.abs) {
-					c.ok(key, sites[0].pos, "same formula, assigned to %s (renamed): %s", t, e.spec)
-					found = true
+		for _, m := range []map[string]*forms{own, viaAll} {
+			for _, t := range sortedKeys(m) {
+				if found {
 					break
 				}
+				f := m[t]
+				if same(f.named, e.named, true) || same(f.res, e.res, true) || same(f.abs, e.abs, true) || same(f.ra, e.ra, true) {
+					verdicts[i] = verdict{"ok", "moved", f.pos, fmt.Sprintf("same formula, now computed as %s: %s", t, e.spec)}
+					found = true
+				}
 			}
-			if !found {
-				c.unm(key, sites[0].pos, "no assignment to %s in %s and no other target carries its formula (%s)", e.target, e.fn, e.spec)
-			}
+		}
+		if !found {
+			verdicts[i] = verdict{"missing", "", pos0, fmt.Sprintf("no assignment to %s in %s and no other target (in it or in an unexported helper it calls) carries its formula (%s)", e.target, e.fn, e.spec)}
+		}
+	}
+	// a tabled local that was inlined: its formula is then part of the entries that used it; when each of those is
+	// found in its resolved form (which spells the local out), the local's own entry is discharged with them
+	tok := func(s string) map[string]bool {
+		m := map[string]bool{}
+		for _, t := range identTokRe.FindAllString(s, -1) {
+			m[t] = true
+		}
+		return m
+	}
+	for i, e := range formulaTable {
+		if verdicts[i].status != "missing" || strings.ContainsAny(e.target, ":#.[") {
 			continue
 		}
-		switch {
-		case sameMultiset(named, e.named):
-			c.ok(key, pos, "%s", e.spec)
-		case sameMultiset(abs, e.abs):
-			if sw := stillDeclared(e.fn, e.named, named); len(sw) > 0 {
-				c.bad(key, pos, "%s computes %s as {%s}: the shape is the reviewed one but it no longer uses %v, which still exist(s) in the function — another value of the same type was put in its place (reviewed: {%s}; spec: %s)", e.fn, e.target, strings.Join(texts, " ; "), sw, strings.Join(e.named, " ; "), e.spec)
-			} else {
-				c.ok(key, pos, "%s (operands renamed)", e.spec)
+		users, allRes := 0, true
+		for j, u := range formulaTable {
+			if j == i || u.fn != e.fn {
+				continue
 			}
+			if !tok(strings.Join(u.named, " "))[e.target] {
+				continue
+			}
+			users++
+			if verdicts[j].status != "ok" || (verdicts[j].how != "res" && verdicts[j].how != "ra") {
+				allRes = false
+			}
+		}
+		if users > 0 && allRes {
+			verdicts[i] = verdict{"ok", "inlined", verdicts[i].pos, fmt.Sprintf("%s is no longer a local of %s; the %d reviewed formula(s) that used it are found with it spelled out: %s", e.target, e.fn, users, e.spec)}
+		}
+	}
+	for i, e := range formulaTable {
+		key := e.fn + ":" + e.target
+		v := verdicts[i]
+		switch v.status {
+		case "ok":
+			c.ok(key, v.pos, "%s", v.msg)
+		case "bad":
+			c.bad(key, v.pos, "%s", v.msg)
 		default:
-			c.bad(key, pos, "%s computes %s as {%s}; in canonical form that is {%s}, the reviewed formula is {%s} — spec: %s", e.fn, e.target, strings.Join(texts, " ; "), strings.Join(named, " ; "), strings.Join(e.named, " ; "), e.spec)
+			c.unm(key, v.pos, "%s", v.msg)
 		}
 	}
 }
